@@ -48,17 +48,23 @@ func main() {
 	case "gen":
 		seed, _ := strconv.ParseUint(os.Args[3], 10, 64)
 		n, _ := strconv.Atoi(os.Args[4])
-		if os.Args[2] == "loop" {
+		switch os.Args[2] {
+		case "loop":
 			genLoop(seed, n, os.Args[5])
-		} else {
+		case "proc", "dproc":
+			genProc(os.Args[2], seed, n, os.Args[5])
+		default:
 			gen(os.Args[2], seed, n, os.Args[5])
 		}
 	case "exec":
 		execOps(os.Args[2], os.Args[3], os.Args[4])
 	case "oracle":
-		if os.Args[2] == "loop" {
+		switch os.Args[2] {
+		case "loop":
 			oracleLoop(os.Args[3], os.Args[4])
-		} else {
+		case "proc", "dproc":
+			oracleProc(os.Args[2], os.Args[3], os.Args[4])
+		default:
 			oracle(os.Args[2], os.Args[3], os.Args[4])
 		}
 	default:
@@ -200,10 +206,14 @@ func execOps(stream, in, outp string) {
 	defer out.Close()
 	s := newSUT()
 	l := &loopSys{sut: s}
+	pr := &procRunner{}
 	for _, f := range wire.ReadLines(in) {
-		if stream == "loop" {
+		switch stream {
+		case "loop":
 			out.Line(l.apply(f))
-		} else {
+		case "proc", "dproc":
+			out.Line(pr.apply(f))
+		default:
 			out.Line(s.apply(f))
 		}
 		out.Flush()
